@@ -29,6 +29,7 @@ type realStore struct {
 	s      *wtxmgr.Store
 	params *chaincfg.Params
 	en     *enumerator // C10 only
+	skew   bool        // received times differ from the insertion clock
 }
 
 func openReal(path string, params *chaincfg.Params) (*realStore, error) {
@@ -104,8 +105,22 @@ func blockMeta(b *ledger.Block) *wtxmgr.BlockMeta {
 // addRelevantTx mirrors wallet.addRelevantTx: InsertTxCheckIfExists, return
 // early for a transaction that is already recorded, otherwise AddCredit for
 // every wallet-owned output.
+// received is the time a transaction is recorded with. The wallet passes its
+// own clock for a mempool transaction and the block header's time for one the
+// neutrino backend hands it in a block, and header times run up to two hours
+// beside the clock: nothing may depend on received times being ordered like
+// insertions.
+func (r *realStore) received(t *utx) time.Time {
+	now := time.Now()
+	if !r.skew {
+		return now
+	}
+	h := uint64(t.hash[0]) | uint64(t.hash[1])<<8 | uint64(t.hash[2])<<16
+	return now.Add(time.Duration(int64(h%14401)-7200) * time.Second)
+}
+
 func (r *realStore) addRelevantTx(ns walletdb.ReadWriteBucket, t *utx, blk *wtxmgr.BlockMeta) error {
-	rec, err := wtxmgr.NewTxRecordFromMsgTx(t.msg, time.Now())
+	rec, err := wtxmgr.NewTxRecordFromMsgTx(t.msg, r.received(t))
 	if err != nil {
 		return err
 	}
@@ -273,6 +288,7 @@ func (sim) Execute(env *core.Env, p *core.Plan) {
 		return
 	}
 	defer st.close()
+	st.skew = cfg.recvSkew
 
 	w := newWorld(p.Seed, cfg, u)
 	w.env, w.drv, w.prop = env, st, p.Prop
